@@ -135,7 +135,7 @@ Definition bag_outcome (b : nbag) : outcome :=
   end.
 
 (* ---------- comparison with what the real layers expose (case shards of C02, C09, C18) ---------- *)
-From Connectome Require Import Relational.
+From Connectome Require Import RelBase.
 
 Fixpoint xval (e : expr) : val :=
   match e with
